@@ -11,7 +11,7 @@
 EXTENDS BvLane
 
 IntOpsC01 == {"add", "sub", "mul", "neg", "abs", "min", "max", "incr", "decr", "incr_if", "decr_if",
-              "fma", "fms", "fnma", "fnms", "divmod", "sign", "sadd", "ssub", "avg", "avgr",
+              "fma", "fms", "fnma", "fnms", "divmod", "sign", "sadd", "ssub", "avg", "avgr", "clip",
               "op+", "op-", "op*", "op/%", "op-u"}
 IntOpsC07 == {"and", "or", "xor", "not", "andnot", "op&", "op|", "op^", "op~", "shl", "shr", "rotl", "rotr",
               "shlv", "shrv", "rotlv", "rotrv", "op<<", "op>>", "op<<v", "op>>v"}
@@ -48,6 +48,7 @@ IntRel(op, S, x, y, z, m, imm, r) ==
     [] op = "fnma"    -> r = VFnma(x, y, z)
     [] op = "fnms"    -> r = VFnms(x, y, z)
     [] op = "sign"    -> r = VSign(S, x)
+    [] op = "clip"    -> VLe(S, y, z) => r = (IF VLt(S, x, y) THEN y ELSE IF VLt(S, z, x) THEN z ELSE x)     \* clip(x, lo, hi), lo <= hi
     [] op = "sadd"    -> r = VSadd(S, x, y)
     [] op = "ssub"    -> r = VSsub(S, x, y)
     [] op = "avg"     -> r = VAvg(S, x, y)
